@@ -16,6 +16,7 @@ Record pobs := mkPObs {
   po_trace : list sop                      (* store writes under the pipeline's id prefix during Init *)
 }.
 Record robs := mkRObs {
+  ro_states_before : list (list (nat * option nat));  (* per pipeline of the pool: connector States just before Init *)
   ro_err : bool;                           (* Init returned an error *)
   ro_pls : list pobs;                      (* per pipeline of the pool, afterwards *)
   ro_re_err : bool;                        (* Init once more (only when the first returned nil) *)
@@ -31,7 +32,8 @@ Definition pobs_eqb (a b : pobs) : bool :=
   && Bool.eqb (po_cfg a) (po_cfg b) && inst_eqb (po_inst a) (po_inst b)
   && list_eqb sop_eqb (po_trace a) (po_trace b).
 Definition robs_eqb (a b : robs) : bool :=
-  Bool.eqb (ro_err a) (ro_err b) && list_eqb pobs_eqb (ro_pls a) (ro_pls b)
+  list_eqb (list_eqb cstate_eqb) (ro_states_before a) (ro_states_before b)
+  && Bool.eqb (ro_err a) (ro_err b) && list_eqb pobs_eqb (ro_pls a) (ro_pls b)
   && Bool.eqb (ro_re_err a) (ro_re_err b) && (ro_re_ops a =? ro_re_ops b).
 
 (* ---------------------------------------------------------------- the model's run *)
@@ -53,7 +55,8 @@ Definition run_round (fl : flags) (w : world) (r : round) : world * robs :=
     if err then (w1, false, 0)
     else let '(w2, e2) := init fl w1 dir2 in
          (w2, e2, length (flat_map (init_trace fl w1 dir2) pl_pool)) in
-  (fold_left set_state_w (r_setstates r) w2, mkRObs err obs rerr rops).
+  (fold_left set_state_w (r_setstates r) w2,
+   mkRObs (map (fun id => states_of (w_st (w id))) pl_pool) err obs rerr rops).
 
 Fixpoint run_rounds (fl : flags) (w : world) (rs : list round) : list robs :=
   match rs with
@@ -72,25 +75,25 @@ Fixpoint find_entry (id : nat) (dir : list dentry) : option dentry :=
 Definition exp_exists (e : expres) : bool := match e with ENone => false | _ => true end.
 Definition inst_empty (i : list nat * list pkey) : bool :=
   match i with ([], []) => true | _ => false end.
-Definition same_pl (p a : pobs) : bool :=
-  expres_eqb (po_export a) (po_export p) && list_eqb cstate_eqb (po_states a) (po_states p)
+Definition same_pl (sb : list (nat * option nat)) (p a : pobs) : bool :=
+  expres_eqb (po_export a) (po_export p) && list_eqb cstate_eqb (po_states a) sb
   && Bool.eqb (po_cfg a) (po_cfg p) && inst_eqb (po_inst a) (po_inst p).
 Definition clean_entry (e : dentry) : bool :=
   valid (de_cfg e) && negb (de_bad e) && match de_fault e with None => true | Some _ => false end.
 
-(* [p]: the pipeline before Init, [a]: afterwards.  Claims are made only from a state an import
-   can legitimately start from. *)
-Definition mon_pl (dir : list dentry) (err : bool) (id : nat) (p a : pobs) : bool :=
+(* [p]: the pipeline before Init ([sb]: its connector States just before), [a]: afterwards.
+   Claims are made only from a state an import can legitimately start from. *)
+Definition mon_pl (dir : list dentry) (err : bool) (id : nat) (sb : list (nat * option nat)) (p a : pobs) : bool :=
   if negb (wf_exp (po_export p)) then true
   else match find_entry id dir with
        | None =>
            (* not in the directory: deleted iff it was provisioned by a config; untouched otherwise *)
            if po_cfg p then negb (exp_exists (po_export a)) && inst_empty (po_inst a) && negb (po_cfg a)
-           else same_pl p a
+           else same_pl sb p a
        | Some e =>
            if dup dir id || (exp_exists (po_export p) && negb (po_cfg p))
            then (* duplicated id, or owned by the API: skipped, reported, untouched *)
-                same_pl p a && err
+                same_pl sb p a && err
            else
              let cfg := de_cfg e in
              (* converged to the config of the directory *)
@@ -103,15 +106,16 @@ Definition mon_pl (dir : list dentry) (err : bool) (id : nat) (p a : pobs) : boo
                          && forallb (fun c => mem c (fst (po_inst p))) (fst (po_inst a))
                          && forallb (fun k => memk k (snd (po_inst p))) (snd (po_inst a)) in
              (conv || kept)
-             && positions_kept (conns_of (po_export p)) (conns_of (po_export a)) (po_states p) (po_states a)
+             && positions_kept (conns_of (po_export p)) (conns_of (po_export a)) sb (po_states a)
              && (if clean_entry e then conv else true)
        end.
 
-Fixpoint mon_pls (dir : list dentry) (err : bool) (ids : list nat) (ps qs : list pobs) : bool :=
-  match ids, ps, qs with
-  | [], [], [] => true
-  | id :: r, p :: ps', a :: qs' => mon_pl dir err id p a && mon_pls dir err r ps' qs'
-  | _, _, _ => false
+Fixpoint mon_pls (dir : list dentry) (err : bool) (ids : list nat) (sbs : list (list (nat * option nat)))
+                 (ps qs : list pobs) : bool :=
+  match ids, sbs, ps, qs with
+  | [], [], [], [] => true
+  | id :: r, sb :: sbs', p :: ps', a :: qs' => mon_pl dir err id sb p a && mon_pls dir err r sbs' ps' qs'
+  | _, _, _, _ => false
   end.
 
 Definition all_clean (prev : list pobs) (dir : list dentry) : bool :=
@@ -119,7 +123,7 @@ Definition all_clean (prev : list pobs) (dir : list dentry) : bool :=
   && forallb (fun p => wf_exp (po_export p) && (negb (exp_exists (po_export p)) || po_cfg p)) prev.
 
 Definition mon_round (prev : list pobs) (r : round) (o : robs) : bool :=
-  mon_pls (r_dir r) (ro_err o) pl_pool prev (ro_pls o)
+  mon_pls (r_dir r) (ro_err o) pl_pool (ro_states_before o) prev (ro_pls o)
   && (if all_clean prev (r_dir r) then negb (ro_err o) else true)
   (* restart with the same directory: nothing to do *)
   && (if ro_err o then true else negb (ro_re_err o) && (ro_re_ops o =? 0)).
